@@ -265,7 +265,8 @@ def update_connectivity(
         fill_value=fill_value,
         dims=connectivity.dims,
         name=connectivity.name,
-        attrs=connectivity.attrs,
+        # The fill value is recorded in the encoding, it can not also be an attribute
+        attrs={key: value for key, value in connectivity.attrs.items() if key != '_FillValue'},
     )
 
 
